@@ -21,9 +21,9 @@ EXPLANATION = (
 )
 BOUNDS = {
     "quick": dict(labels="1..3 (4 for algorithm overlap, fresh engine)", value_box="positions in [-20,130], widths in (0,80], spacing in [0,10]", grid="bounds {(0,100),(None,100),(0,None)}, density 0.85, stubWidth 1; histories fresh/reconf/engine2/stale/subset/interleaved (two engines alive, the first used after the second was configured)"),
-    "thorough": dict(labels="1..3 over the whole grid, 4 for overlap/simple, 5 for overlap on (0,100)", grid="bounds {(0,100),(None,100),(0,None),(-30,45),(0,60)}, density {0.85,0.5,1}, stubWidth {0,1,5}, all histories for 2-3 labels"),
+    "thorough": dict(labels="1..3 over the whole grid, 4 for overlap/simple on (0,100) (5 labels were measured beyond 25 minutes and are not registered)", grid="bounds {(0,100),(None,100),(0,None),(-30,45),(0,60)}, density {0.85,0.5,1}, stubWidth {0,1,5}, all histories for 2-3 labels"),
 }
-OUTSIDE = ["roundRobin (returns [] - not in the property's algorithm set)", "more than 5 labels", "zero-width labels (null interval)", "symbolic layer width / density (concrete grid instead)"]
+OUTSIDE = ["roundRobin (returns [] - not in the property's algorithm set)", "more than 4 labels", "zero-width labels (null interval)", "symbolic layer width / density (concrete grid instead)"]
 ASSUMPTIONS = [
     "vpsc.Solver.solve replaced by its contract (KKT optimum) - the structure asserted here does not depend on positions except through sort order",
     "intervaltree.IntervalTree modelled by its documented contract (half-open intervals)",
@@ -41,10 +41,9 @@ def configs(tier):
             + F([3], algs=("overlap", "simple"), bounds=((0, 100),), hists=("reconf", "engine2", "stale", "subset", "interleaved"), shards=4)
         )
     c = F([1, 2, 3], dens=(0.85, 0.5, 1), stubws=(0, 1, 5), bounds=((0, 100), (None, 100), (0, None), (-30, 45), (0, 60)))
-    c += F([4], algs=("overlap", "simple"), dens=(0.85, 0.5), bounds=((0, 100), (0, 60)), shards=12)
+    c += F([4], algs=("overlap", "simple"), bounds=((0, 100),), shards=12)
     c += F([2], bounds=((0, 100), (0, 60)), hists=("twice", "reconf", "renodes", "engine2", "subset", "stale", "interleaved"))
     c += F([3], algs=("overlap", "simple"), bounds=((0, 100),), hists=("twice", "reconf", "renodes", "engine2", "subset", "stale", "interleaved"), shards=4)
-    c += F([5], algs=("overlap",), bounds=((0, 100),), shards=16)
     return c
 
 
